@@ -73,10 +73,14 @@ type Line struct {
 	Origin     string `json:"origin"`
 	Segs       []Seg  `json:"segs"`
 	FilePrefix string `json:"filePrefix,omitempty"` // file-level text before {namespace}
-	File       string `json:"file"`
-	Obs        Obs    `json:"observed"`
-	Pinned     string `json:"specExample,omitempty"` // one output the spec allows
-	expectBad  bool
+	// a line-end variant: the complete source is SrcSegs' source with every LF
+	// replaced (crlf | cr); Segs describes the converted text for the spec
+	Eol       string `json:"fileLineEnds,omitempty"`
+	SrcSegs   []Seg  `json:"sourceSegs,omitempty"`
+	File      string `json:"file"`
+	Obs       Obs    `json:"observed"`
+	Pinned    string `json:"specExample,omitempty"` // one output the spec allows
+	expectBad bool
 }
 
 func (ln *Line) body() string {
@@ -100,8 +104,45 @@ func (ln *Line) kinds() string {
 }
 
 func (ln *Line) render() {
-	ln.File = ln.FilePrefix + TemplateFile(ln.body())
+	if ln.Eol != "" {
+		var b strings.Builder
+		for _, g := range ln.SrcSegs {
+			b.WriteString(g.source())
+		}
+		ln.File = strings.ReplaceAll(ln.FilePrefix+TemplateFile(b.String()), "\n", eolOf[ln.Eol])
+	} else {
+		ln.File = ln.FilePrefix + TemplateFile(ln.body())
+	}
 	ln.Obs = RenderFile(ln.File)
+}
+
+// eolVariant is the same body with the complete source in another line-end
+// form. Every LF of every segment becomes the new line end; a line comment
+// ends at the CR of a CR LF, so the LF after it belongs to the next text run.
+func eolVariant(ln *Line, eol string) *Line {
+	nl := eolOf[eol]
+	v := &Line{Kind: "trace", Origin: ln.Origin, FilePrefix: ln.FilePrefix, Eol: eol, SrcSegs: ln.Segs}
+	pending := ""
+	for _, g := range ln.Segs {
+		g2 := g
+		g2.S = strings.ReplaceAll(g.S, "\n", nl)
+		if g2.K == "text" {
+			g2.S = pending + g2.S
+			pending = ""
+		} else if pending != "" {
+			v.Segs = append(v.Segs, text(pending))
+			pending = ""
+		}
+		if g2.K == "lcom" && strings.HasSuffix(g2.S, "\r\n") {
+			g2.S = g2.S[:len(g2.S)-1]
+			pending = "\n"
+		}
+		v.Segs = append(v.Segs, g2)
+	}
+	if pending != "" {
+		v.Segs = append(v.Segs, text(pending))
+	}
+	return v
 }
 
 const canary = "a\u00e9\u00a0\u2003\U0001F600\t\r\n<>\\\"{}/*"
@@ -254,7 +295,7 @@ func reverse(s string) string {
 	return string(r)
 }
 
-var literalAlpha = []string{"a", "{", "}", "\n", " ", "/", "*", "\u00e9"}
+var literalAlpha = []string{"a", "{", "}", "\n", " ", "/", "*", "\u00e9", "\r"}
 
 func literalLines(maxLen int) []*Line {
 	var res []*Line
@@ -324,7 +365,7 @@ func randFrom(r *rand.Rand, alpha []rune, min, max int) string {
 	return b.String()
 }
 
-var litHazards = []string{"{/literal}", "{{/literal}}", "/literal}", "{literal}", "{{literal}}", " // c\n", "/* c */", "\n    ", "{sp}", "{nil}", "{lb}", "{$y}", "{call .u/}", "\"", "'", "{/template}"}
+var litHazards = []string{"{/literal}", "{{/literal}}", "/literal}", "{literal}", "{{literal}}", "\r\n", "\n\r", " // c\n", "/* c */", "\n    ", "{sp}", "{nil}", "{lb}", "{$y}", "{call .u/}", "\"", "'", "{/template}"}
 
 func endsInWs(s string) bool { return s != "" && isWsByte(s[len(s)-1]) }
 
@@ -364,7 +405,7 @@ func randomLine(r *rand.Rand) *Line {
 				if r.Intn(3) == 0 {
 					b.WriteString(litHazards[r.Intn(len(litHazards))])
 				} else {
-					b.WriteString(randFrom(r, []rune{'a', '{', '}', '\n', ' ', '/', '*', '\u00e9', '\u00a0', '\t'}, 1, 3))
+					b.WriteString(randFrom(r, []rune{'a', '{', '}', '\n', ' ', '/', '*', '\u00e9', '\u00a0', '\t', '\r', '\n', '\u2028', '\u0085', '\v', '\f'}, 1, 3))
 				}
 			}
 			body := b.String()
@@ -439,9 +480,27 @@ func TraceFamily(ctx *core.Ctx, nRandom, literalLen int) {
 	lines = append(lines, exampleLines()...)
 	lines = append(lines, specialLines()...)
 	lines = append(lines, literalLines(literalLen)...)
+	// the systematic bodies that hold a line break also with the complete
+	// source in CR LF and in CR form
+	for _, ln := range lines[:len(lines):len(lines)] {
+		// (literal-only bodies have their line-end forms in the M2 literal family)
+		if ln.Origin != "literal" && strings.Contains(ln.FilePrefix+ln.body(), "\n") {
+			lines = append(lines, eolVariant(ln, "crlf"), eolVariant(ln, "cr"))
+		}
+	}
 	nSys := len(lines)
+	nVar := 0
 	for i := 0; i < nRandom; i++ {
-		lines = append(lines, randomLine(r))
+		ln := randomLine(r)
+		lines = append(lines, ln)
+		switch i % 3 {
+		case 1:
+			lines = append(lines, eolVariant(ln, "crlf"))
+			nVar++
+		case 2:
+			lines = append(lines, eolVariant(ln, "cr"))
+			nVar++
+		}
 	}
 	renderLines(lines)
 	ctx.AddEvals(int64(len(lines)))
@@ -457,7 +516,7 @@ func TraceFamily(ctx *core.Ctx, nRandom, literalLen int) {
 		return
 	}
 	ctx.AddTraces(int64(judged))
-	setExtra(ctx, "trace_lines", map[string]interface{}{"examples+special+literal": nSys, "random": nRandom, "judged": judged, "rejected": len(bad)})
+	setExtra(ctx, "trace_lines", map[string]interface{}{"examples+special+literal": nSys, "random": nRandom, "random_line_end_variants": nVar, "judged": judged, "rejected": len(bad)})
 	if len(bad) == 0 {
 		return
 	}
